@@ -1,0 +1,84 @@
+//go:build verif
+// +build verif
+
+package cpu
+
+// Verification hook (build tag `verif` only): lets a test harness select the
+// acceleration level through FASTGO_VERIF_ARCHLEVEL. The level can only be
+// lowered below what the host can execute: the capability is the detected
+// level, or - on x86-64 hosts whose vendor string is not GenuineIntel - the
+// level implied by the CPU feature flags in /proc/cpuinfo.
+
+import (
+	"os"
+	"runtime"
+	"strconv"
+	"strings"
+)
+
+// VerifCapability is the highest level this host can execute.
+var VerifCapability int
+
+// VerifRequested is the level asked for (-1 when none).
+var VerifRequested = -1
+
+func init() {
+	VerifCapability = ArchLevel
+	if c := verifFlagsLevel(); c > VerifCapability {
+		VerifCapability = c
+	}
+	v := os.Getenv("FASTGO_VERIF_ARCHLEVEL")
+	if v == "" {
+		return
+	}
+	n, err := strconv.Atoi(v)
+	if err != nil || n < 0 {
+		return
+	}
+	VerifRequested = n
+	if n > VerifCapability {
+		n = VerifCapability
+	}
+	ArchLevel = n
+}
+
+func verifFlagsLevel() int {
+	if runtime.GOARCH != "amd64" || cpuArchLevelIsStub() {
+		return 0
+	}
+	data, err := os.ReadFile("/proc/cpuinfo")
+	if err != nil {
+		return 0
+	}
+	flags := map[string]bool{}
+	for _, line := range strings.Split(string(data), "\n") {
+		if strings.HasPrefix(line, "flags") {
+			if i := strings.Index(line, ":"); i >= 0 {
+				for _, f := range strings.Fields(line[i+1:]) {
+					flags[f] = true
+				}
+			}
+			break
+		}
+	}
+	has := func(names ...string) bool {
+		for _, n := range names {
+			if !flags[n] {
+				return false
+			}
+		}
+		return true
+	}
+	if !has("sse3", "ssse3", "cx16", "sse4_1", "sse4_2", "popcnt", "lahf_lm") {
+		return 0
+	}
+	level := 1
+	if !has("avx", "avx2", "bmi1", "bmi2", "abm", "fma", "movbe", "f16c", "xsave") {
+		return level
+	}
+	level = 3
+	if !has("avx512f", "avx512dq", "avx512cd", "avx512bw", "avx512vl") {
+		return level
+	}
+	return 4
+}
